@@ -100,7 +100,9 @@ type event struct {
 type endInfo struct {
 	Leaked   int    `json:"leaked"`
 	Timeouts int    `json:"timeouts"`
-	Discard  bool   `json:"discard"`
+	Discard  bool   `json:"discard"` // nothing was observed: the scenario could not even be started
+	Cut      bool   `json:"cut"`     // the implementation did not do what the next step needs: the prefix is judged
+	Opened   []int  `json:"opened"`  // sessions whose first request was sent
 	Note     string `json:"note,omitempty"`
 }
 
@@ -121,6 +123,8 @@ type sess struct {
 	release  chan struct{}
 	cond     *sync.Cond
 	stop     chan bool // stop channel shared by the requests that ask for it
+	stops    []chan bool // stop channel of request k
+	stamped  []bool      // the watcher of request k has stamped OStop k
 }
 
 type world struct {
@@ -181,10 +185,15 @@ func (sv *service) handle(m *Req) (chan *Resp, chan bool, error) {
 		stop = ss.stop
 		ss.Unlock()
 	}
+	ss.Lock()
+	ss.stops = append(ss.stops, stop)
+	ss.stamped = append(ss.stamped, false)
+	ss.Unlock()
 	go func() {
 		<-stop
 		w.stamp(ss.idx, "OStop", k, 0)
 		ss.Lock()
+		ss.stamped[k] = true
 		ss.cond.Broadcast()
 		ss.Unlock()
 	}()
@@ -496,32 +505,52 @@ func (c *child) runScenario(sc *scenario) endInfo {
 		close(s.chans[ch])
 	}
 
+	ctr0 := atomic.LoadInt64(&w.ctr) // stamp counter at the start: "has anything been observed?"
 	sched := lib.NewSched()
 	onet.SetVerifHook(sched.Hook)
 	defer sched.ReleaseAll()
 	var gate *lib.Gate
+	gatePoint := ""
 	doOp := func(o op) {
 		i := o.S
 		switch o.K {
 		case "open", "openbad":
+			// Not being able to connect or to send is "scenario not reached" only while
+			// nothing has been observed in this scenario; afterwards (later sessions, the
+			// probe) it is the server not serving a client: the session counts as opened
+			// and the completed prefix is judged.
+			notServed := func(what string) {
+				if atomic.LoadInt64(&w.ctr) == ctr0 {
+					info.Discard = true
+					return
+				}
+				info.Opened = append(info.Opened, i)
+				info.Cut = true
+				info.Note += " " + what
+			}
 			if !dial(i) {
-				info.Discard = true
+				notServed("dial-failed")
 				return
 			}
 			if o.K == "openbad" {
 				if err := cl[i].raw.WriteMessage(websocket.BinaryMessage, garbage); err != nil {
-					info.Discard = true
+					notServed("first-write-failed")
+					return
 				}
+				info.Opened = append(info.Opened, i)
 				startReader(i)
 				return
 			}
 			if err := sendReq(i, &Req{Stream: ids[i], Chan: int64(o.C), Share: b2i(o.Share)}); err != nil {
-				info.Discard = true
+				notServed("first-write-failed")
 				return
 			}
+			info.Opened = append(info.Opened, i)
 			startReader(i)
-			if !ss[i].waitCond(5*time.Second, func() bool { return ss[i].returned >= 1 }) {
-				info.Discard = true
+			// the request is on its way: a handler that is not called is an observation (clause 6)
+			if !ss[i].waitCond(10*time.Second, func() bool { return ss[i].returned >= 1 }) {
+				info.Cut = true
+				info.Note += " first-request-not-handled"
 			}
 		case "emit":
 			s := ss[i]
@@ -535,6 +564,8 @@ func (c *child) runScenario(sc *scenario) endInfo {
 			select {
 			case s.chans[o.C] <- &Resp{int64(o.C), int64(o.V)}:
 			case <-time.After(5 * time.Second):
+				// 512 free slots and the send still blocks: outside the model's vocabulary
+				w.stamp(i, "OEmitBlocked", o.C, o.V)
 				info.Note += " emit-blocked"
 			}
 		case "recv":
@@ -567,11 +598,14 @@ func (c *child) runScenario(sc *scenario) endInfo {
 			if max <= 0 {
 				max = 1
 			}
-			gate = sched.Block(o.P, max, nil)
+			gate, gatePoint = sched.Block(o.P, max, nil), o.P
 		case "waithit":
-			// the point is only there once C15-hooks.diff is applied: otherwise the scenario is not reached
-			if gate == nil || !gate.WaitHit(300*time.Millisecond) {
-				info.Discard = true
+			// The points are part of /repo and always reached on the unchanged tree: a goroutine
+			// that does not get there is an observation outside the model's vocabulary (the case
+			// disagrees with the model); the scenario goes on and the property judges the rest.
+			if gate == nil || !gate.WaitHit(5*time.Second) {
+				w.stamp(i, "OPointMissed", 0, 0)
+				info.Note += " point-missed:" + gatePoint
 			}
 		case "waithitopt":
 			// a further goroutine may or may not get to the point (not judged)
@@ -584,10 +618,15 @@ func (c *child) runScenario(sc *scenario) endInfo {
 			}
 		case "waithandled":
 			// until V handler calls of the session have returned (bounded)
-			ss[i].waitCond(2*time.Second, func() bool { return ss[i].returned >= o.V })
+			ss[i].waitCond(5*time.Second, func() bool { return ss[i].returned >= o.V })
 		case "waitwriter":
-			// until no write loop is left (bounded: with the fixes the loop rightly stays)
-			deadline := time.Now().Add(300 * time.Millisecond)
+			// until no write loop is left (bounded: in some scenarios the loop rightly stays;
+			// V = bound in ms where the unchanged tree always lets it go)
+			wd := 300 * time.Millisecond
+			if o.V > 0 {
+				wd = time.Duration(o.V) * time.Millisecond
+			}
+			deadline := time.Now().Add(wd)
 			for time.Now().Before(deadline) && stackHas("wsHandler.ServeHTTP(", "") {
 				time.Sleep(2 * time.Millisecond)
 			}
@@ -609,7 +648,7 @@ func (c *child) runScenario(sc *scenario) endInfo {
 			}
 			sendReq(i, &Req{Stream: ids[i], Chan: int64(o.C), Block: b, Share: b2i(o.Share)})
 			if o.Wait {
-				s.waitCond(2*time.Second, func() bool {
+				s.waitCond(5*time.Second, func() bool {
 					if o.Block {
 						return s.entered > e0
 					}
@@ -642,11 +681,11 @@ func (c *child) runScenario(sc *scenario) endInfo {
 			s.release = make(chan struct{})
 			s.Unlock()
 			close(rel)
-			s.waitCond(2*time.Second, func() bool { return s.returned >= e0 })
+			s.waitCond(5*time.Second, func() bool { return s.returned >= e0 })
 		}
 	}
 
-	for j := 0; j < len(sc.Ops) && !info.Discard; {
+	for j := 0; j < len(sc.Ops) && !info.Discard && !info.Cut; {
 		k := j
 		for k < len(sc.Ops)-1 && sc.Ops[k].Par {
 			k++
@@ -673,19 +712,35 @@ func (c *child) runScenario(sc *scenario) endInfo {
 		return info
 	}
 
+	// After the clean-up every stream has been ended, so a staying client must get its
+	// close: the bound is long and only a wrong tree pays it. Without clean-up a stream
+	// may rightly stay open and nothing is pending (the scenarios are in lock step).
+	drainWait := 300 * time.Millisecond
+	if sc.Cleanup {
+		drainWait = 5 * time.Second
+	}
 	drain := func() {
 		for i := 0; i < n; i++ {
 			if cl[i].raw == nil && cl[i].onetc == nil {
 				continue
 			}
-			for recv(i, 300*time.Millisecond) {
+			for recv(i, drainWait) {
 			}
 		}
 	}
+	// until no goroutine of the sessions is left, or (some scenarios rightly leave
+	// goroutines behind) until their number has not changed for 500 ms, at most 6 s
 	settle := func() {
-		deadline := time.Now().Add(400 * time.Millisecond)
+		deadline := time.Now().Add(6 * time.Second)
+		last, since := -1, time.Now()
 		for time.Now().Before(deadline) {
-			if census()-c.base <= 0 {
+			cur := census() - c.base
+			if cur <= 0 {
+				return
+			}
+			if cur != last {
+				last, since = cur, time.Now()
+			} else if time.Since(since) > 500*time.Millisecond {
 				return
 			}
 			time.Sleep(3 * time.Millisecond)
@@ -715,9 +770,13 @@ func (c *child) runScenario(sc *scenario) endInfo {
 	mk(n, 1)
 	sc.Onet = append(append([]bool{}, sc.Onet...), make([]bool, n+1-len(sc.Onet))...)
 	sc.Onet[n] = true
+	cutBefore := info.Cut
 	doOp(op{S: n, K: "open", C: 0})
-	if info.Discard {
-		info.Discard = false
+	if info.Discard || (info.Cut && !cutBefore) {
+		// (nothing observed at all before the probe: not reached) / the probe was not served: clause 6
+		if info.Discard {
+			return info
+		}
 		info.Note += " probe-not-served"
 	} else {
 		doOp(op{S: n, K: "emit", C: 0, V: 1})
@@ -738,8 +797,23 @@ func (c *child) runScenario(sc *scenario) endInfo {
 	if info.Leaked < 0 {
 		info.Leaked = 0
 	}
-	// stops are stamped by watcher goroutines: give the last ones the time to write
-	time.Sleep(2 * time.Millisecond)
+	// stops are stamped by watcher goroutines: every stop channel that is closed by now
+	// has its OStop in the trace before the scenario ends
+	for i := 0; i <= n; i++ {
+		s := ss[i]
+		s.waitCond(5*time.Second, func() bool {
+			for k, st := range s.stops {
+				select {
+				case <-st:
+					if !s.stamped[k] {
+						return false
+					}
+				default:
+				}
+			}
+			return true
+		})
+	}
 	return info
 }
 
@@ -869,6 +943,7 @@ func run(raw json.RawMessage) lib.Case {
 	}
 	var evs []event
 	var end *endInfo
+	hung := false
 	type res struct {
 		l   line
 		err error
@@ -887,9 +962,14 @@ func run(raw json.RawMessage) lib.Case {
 		select {
 		case r = <-ch:
 		case <-time.After(120 * time.Second):
+			// every wait of the driver is bounded: a scenario that does not end is the
+			// implementation holding the driver; the prefix is kept and cannot agree
 			p.kill()
 			cur = nil
-			return lib.Case{Discard: true}
+			hung = true
+		}
+		if hung {
+			break
 		}
 		if r.err != nil {
 			break
@@ -902,7 +982,14 @@ func run(raw json.RawMessage) lib.Case {
 		}
 	}
 	o := obs{}
-	if end == nil {
+	if hung {
+		if len(evs) == 0 {
+			return lib.Case{Discard: true}
+		}
+		o.Note += " scenario-did-not-end"
+		evs = append(evs, event{Seq: 1 << 60, S: 0, K: "OHarnessTimeout"})
+		sc.Class += "+cut"
+	} else if end == nil {
 		// the child died inside the scenario
 		p.in.Close()
 		err := p.cmd.Wait()
@@ -916,10 +1003,16 @@ func run(raw json.RawMessage) lib.Case {
 		case strings.Contains(se, "panic:"):
 			i := strings.Index(se, "panic:")
 			o.Panic = strings.SplitN(se[i:], "\n", 2)[0]
+		case strings.Contains(se, "fatal error:"):
+			// runtime aborts (concurrent map access, deadlock, ...) kill the server just the same
+			i := strings.Index(se, "fatal error:")
+			o.Panic = strings.SplitN(se[i:], "\n", 2)[0]
 		default:
-			// not a Go panic (start-up failure, killed): the scenario was not reached
-			_ = err
-			return lib.Case{Discard: true}
+			if len(evs) == 0 {
+				// died before anything was observed (start-up failure): not reached
+				return lib.Case{Discard: true}
+			}
+			o.Panic = fmt.Sprintf("process ended inside the scenario: %v", err)
 		}
 		o.Crashed = true
 	} else {
@@ -927,6 +1020,9 @@ func run(raw json.RawMessage) lib.Case {
 			p.kill()
 			cur = nil
 			return lib.Case{Discard: true}
+		}
+		if end.Cut {
+			sc.Class += "+cut"
 		}
 		o.Leaked, o.Timeouts, o.Note = end.Leaked, end.Timeouts, end.Note
 		if end.Leaked > 0 {
@@ -954,16 +1050,22 @@ func run(raw json.RawMessage) lib.Case {
 	for i := 0; i < ns; i++ {
 		nchan := sc.NChan
 		first := "(MReq 0)"
+		opened := len(per[i]) > 0
+		if end != nil {
+			for _, j := range end.Opened {
+				opened = opened || j == i
+			}
+		}
+		if !opened {
+			continue // the first request of the session was never sent
+		}
 		if i < sc.NStream {
 			first = firsts[i]
 			if first == "" {
-				continue // the session was never opened
+				continue
 			}
 		} else {
 			nchan = 1
-			if len(per[i]) == 0 {
-				continue // crashed before the probe
-			}
 		}
 		streams = append(streams, fmt.Sprintf("mkStream %s %d %s", first, nchan, lib.List(per[i])))
 		o.Streams = append(o.Streams, strings.Join(per[i], "; "))
